@@ -2,6 +2,7 @@ package rules
 
 import (
 	"fmt"
+	"go/token"
 	"go/types"
 	"strings"
 
@@ -213,6 +214,47 @@ func runC17(c *Ctx) {
 			}
 		}
 	}
+	if nrep == 0 {
+		// alternative shape: the hop is scrubbed in place. Every field except TTL must then be reset to its zero value.
+		cleared := map[string]bool{}
+		var hopT *types.Struct
+		var pos token.Pos
+		for _, b := range rm.Blocks {
+			for _, in := range b.Instrs {
+				st, ok := in.(*ssa.Store)
+				if !ok {
+					continue
+				}
+				fa, ok := st.Addr.(*ssa.FieldAddr)
+				if !ok || !isNamed(fa.X.Type(), core.ModulePath+"/result", "TracerouteHop") {
+					continue
+				}
+				hopT = fa.X.Type().Underlying().(*types.Pointer).Elem().Underlying().(*types.Struct)
+				pos = st.Pos()
+				zero := false
+				if cst, ok := st.Val.(*ssa.Const); ok {
+					zero = cst.Value == nil || cst.Value.ExactString() == "0" || cst.Value.ExactString() == "false" || cst.Value.ExactString() == "\"\""
+				}
+				if zero {
+					cleared[core.FieldName(fa)] = true
+				} else if core.FieldName(fa) != "TTL" {
+					R.Fail("R17.2", fn+"#in-place["+core.FieldName(fa)+"]", st.Pos(), fn, "redaction stores a non-zero value into "+core.FieldName(fa)+" of a private hop")
+				}
+			}
+		}
+		if hopT == nil {
+			R.Fail("R17.2", fn+"#placeholder", rm.Pos(), fn, "the redaction pass neither replaces a private hop by a fresh TTL-only placeholder nor clears its fields")
+		} else {
+			var missing []string
+			for i := 0; i < hopT.NumFields(); i++ {
+				if n := hopT.Field(i).Name(); n != "TTL" && !cleared[n] {
+					missing = append(missing, n)
+				}
+			}
+			R.Check(len(missing) == 0, "R17.2", fn+"#placeholder", pos, fn, "a private hop is scrubbed in place: every field except TTL is reset", "a private hop is scrubbed in place but "+strings.Join(missing, ", ")+" keep(s) data derived from the private address (a fresh TTL-only placeholder resets every field implicitly)")
+			nrep = 1
+		}
+	}
 	R.Floor("R17.2:replacement-stores", nrep, 1)
 	// loops leave only through their headers (every run, every hop visited)
 	nloops := 0
@@ -227,26 +269,7 @@ func runC17(c *Ctx) {
 			continue
 		}
 		nloops++
-		loop := innermostLoop(rm, h)
-		// the loop of which h is the header
-		for _, hh := range rm.Blocks {
-			for _, t := range hh.Preds {
-				if hh == h && h.Dominates(t) {
-					l2 := map[*ssa.BasicBlock]bool{h: true}
-					work := []*ssa.BasicBlock{t}
-					for len(work) > 0 {
-						x := work[len(work)-1]
-						work = work[:len(work)-1]
-						if l2[x] {
-							continue
-						}
-						l2[x] = true
-						work = append(work, x.Preds...)
-					}
-					loop = l2
-				}
-			}
-		}
+		loop := loopOfHeader(h)
 		exits := 0
 		for b := range loop {
 			for _, s := range b.Succs {
